@@ -548,6 +548,19 @@ def rule_r12(prog, res):
                     'not send' % txt)
 
 
+def rule_r13(prog, res):
+    from . import c16
+    from ..report import Result
+    res.share('R13', 'an unprefixed xsi:type value resolves through the '
+              'default namespace (prefix None), and the polymorphic switch '
+              'compares with the original class (C16-R10, C16-R14)', 'C16',
+              c16.rule_r10, prog, Result)
+    res.share('R13', 'an unprefixed xsi:type value resolves through the '
+              'default namespace (prefix None), and the polymorphic switch '
+              'compares with the original class (C16-R10, C16-R14)', 'C16',
+              c16.rule_r14, prog, Result)
+
+
 def run(prog, res, tier):
     res.run_rule(rule_shared2, prog, res)
     res.run_rule(rule_r1, prog, res)
@@ -559,6 +572,7 @@ def run(prog, res, tier):
     res.run_rule(rule_r10, prog, res)
     res.run_rule(rule_r11, prog, res)
     res.run_rule(rule_r12, prog, res)
+    res.run_rule(rule_r13, prog, res)
 
 
 _X = 'spyne/protocol/xml.py'
